@@ -19,6 +19,8 @@ def run(chk, tier):
         if name == plan[0][0]:
             spec_checked.check_validate_and_subtract(chk, lib)
             spec_checked.check_loop_progress(chk, lib)
+        if name in ("test_schema", "vlayout"):
+            spec_checked.check_block_length_state(chk, lib)
     chk.extra["entry_points_analysed"] = tot[0]
     chk.floor("size_bytes_checked instantiations", tot[0], 20)
     chk.floor("reads examined", tot[1], 300)
@@ -28,7 +30,10 @@ def run(chk, tier):
                      "its path by branch facts K <= n (initial header test and successful validate_and_subtract calls, K = "
                      "bytes accounted) with read_end - view.begin <= K implied by linear combination. Exactness: on loop-free "
                      "valid=true paths the reported size equals the accounted total. Rows: validate_and_subtract (size < n "
-                     "=> invalid and unchanged, else subtract), the visitor callbacks validate before descending. Bounded "
+                     "=> invalid and unchanged, else subtract), the visitor callbacks validate before descending. State: the visitor's group_block_length is the wire "
+                     "blockLength of the group being traversed at every on_entry (on_group stores its own header's value before "
+                     "visiting, every on_group instantiation restores the previous value on all E2 paths, nothing else writes "
+                     "the field). Bounded "
                      "work: structural necessary condition on the entry loop. Known findings (D10, replayed with ASan): field "
                      "reads are covered only by the *wire* blockLength, the <data> length prefix is read before it is "
                      "validated, zero-length entries make the loop bound numInGroup. Reads inside entry loops are not "
